@@ -175,7 +175,17 @@ impl<C: Cfg> World<C> {
                     }
                 }
                 let clone_at = if kind == 7 { ch.pick(calls.len() as u32 + 1) as usize } else { 0 };
-                self.do_iter(v, kind, &calls, clone_at, tr);
+                // nth / nth_back (skip 0..=len+1 items) on one of the calls, and an adaptor at the end
+                let mut skips: Vec<u8> = vec![0; calls.len()];
+                let mut finish = 0;
+                if kind != 7 && self.spec.mon & MON_ITER != 0 {
+                    if !calls.is_empty() && ch.flip() {
+                        let pos = ch.pick(calls.len().min(3) as u32) as usize;
+                        skips[pos] = 1 + ch.pick(len as u32 + 2) as u8;
+                    }
+                    finish = ch.pick(4);
+                }
+                self.do_iter_ext(v, kind, &calls, clone_at, &skips, finish, tr);
             }
             OP_DRAIN | OP_SPLICE => {
                 let rop = self.plan_range(ch, op == OP_SPLICE, hist, v, w);
@@ -233,7 +243,7 @@ impl<C: Cfg> World<C> {
                 let copies = ch.pick(3) as usize; // LazyClone::clone copies
                 let mut consume = Vec::with_capacity(copies + 1);
                 for _ in 0..=copies {
-                    consume.push(ch.pick(5) as u8);
+                    consume.push(ch.pick(6) as u8);
                 }
                 self.do_lazy(v, w, kind, j, depth, &consume, tr);
             }
@@ -633,6 +643,8 @@ pub fn run_body<C: Cfg>(spec: &Spec, shape: Shape, ch: &mut Ch, tr: &mut String,
             // fixed-capacity sources are also tried completely full
             let full = fl.fixed_cap().is_some() && ch.flip();
             let len = if full { fl.fixed_cap().unwrap().min(8) } else { len };
+            // resizable flavours: also sizes whose byte length crosses 128 (bulk-copy thresholds)
+            let len = if len == maxlen && fl.fixed_cap().is_none() && !(C::T::TRACKED && !C::T::ZST && C::T::IDBYTES == 1) { [len, 16, 40][ch.pick(3) as usize] } else { len };
             let extra = if fl.fixed_cap().is_none() { Some([0usize, 2][ch.pick(2) as usize]) } else { None };
             let _ = write!(tr, "[{}] v0: {} len {} cap+{:?} | ", C::NAME, fl.name(), len, extra);
             w.setup_slot(0, fl, len, extra);
@@ -658,7 +670,7 @@ pub fn run_body<C: Cfg>(spec: &Spec, shape: Shape, ch: &mut Ch, tr: &mut String,
                     user_calls = w.disarm_fault();
                 }
                 w.check_state("clone");
-                if !w.dead() {
+                if !w.dead() && len < 16 {
                     // one operation on the original or on the clone; the other one must not change
                     let on_clone = ch.flip();
                     let slots = if on_clone { (1, 0) } else { (0, 1) };
